@@ -286,16 +286,15 @@ fn pick_target(rng: &mut Rng, w: &World, prefer_mutable: bool) -> usize {
 }
 
 fn random_hexpr(rng: &mut Rng, w: &World, depth: u32) -> HExpr {
-    match rng.below(if depth == 0 { 9 } else { 7 }) {
-        0 => HExpr::Tags,
-        1 | 2 => HExpr::Bookmark(rng.range(1, 3)),
-        3 => HExpr::Bookmarks,
-        4 | 5 => {
-            // a commit: visible non-root, biased to the lower half of the graph
+    match rng.below(if depth == 0 { 21 } else { 17 }) {
+        0 | 1 => HExpr::Tags,
+        2..=7 => HExpr::Bookmark(rng.range(1, 3)),
+        8 | 9 => HExpr::Bookmarks,
+        10..=15 => {
             let c: Vec<usize> = w.vis.iter().copied().filter(|c| *c != 0).collect();
             if c.is_empty() { HExpr::None } else { HExpr::Commit(*rng.pick(&c)) }
         }
-        6 => HExpr::None,
+        16 => HExpr::None,
         _ => HExpr::Union(
             Box::new(random_hexpr(rng, w, depth + 1)),
             Box::new(random_hexpr(rng, w, depth + 1)),
@@ -304,7 +303,7 @@ fn random_hexpr(rng: &mut Rng, w: &World, depth: u32) -> HExpr {
 }
 
 fn random_cmd(rng: &mut Rng, w: &World, ws: u64, have_ws2: bool, step: usize) -> Cmd {
-    let pm = rng.chance(3, 5);
+    let pm = rng.chance(2, 5);
     let t = pick_target(rng, w, pm);
     let non_desc = |rng: &mut Rng, s: usize| -> usize {
         let c: Vec<usize> = w.vis.iter().copied().filter(|&x| !w.is_anc(s, x)).collect();
@@ -320,7 +319,7 @@ fn random_cmd(rng: &mut Rng, w: &World, ws: u64, have_ws2: bool, step: usize) ->
             _ => Cmd::Commit,
         };
     }
-    match rng.below(20) {
+    match rng.below(23) {
         0 | 1 | 2 => {
             let mut ts = vec![t];
             if rng.chance(1, 4) {
@@ -365,11 +364,12 @@ fn random_cmd(rng: &mut Rng, w: &World, ws: u64, have_ws2: bool, step: usize) ->
         14 => Cmd::NewBefore(t, rng.chance(1, 2)),
         15 => Cmd::Commit,
         16 | 17 => Cmd::BookmarkSet(rng.range(1, 3), *rng.pick(&w.vis)),
-        18 => {
-            if !have_ws2 && step >= 1 && rng.chance(1, 2) {
+        18 => Cmd::TagSet(1, *rng.pick(&w.vis)),
+        19 | 20 => {
+            if !have_ws2 && step >= 1 {
                 Cmd::WorkspaceAdd
             } else {
-                Cmd::TagSet(1, *rng.pick(&w.vis))
+                Cmd::Describe(vec![t])
             }
         }
         _ => Cmd::Snapshot,
@@ -501,9 +501,13 @@ fn session(index: usize, mut rng: Rng, scratch: &Path, tier: &str) -> SessionRes
     let ws1: PathBuf = root.join("repo");
     let ws2: PathBuf = root.join("w2");
     let mut shapes: Vec<String> = vec![];
-    if sess.jjs(&root, &["git", "init", "repo"]).rc != 0 {
+    // colocated (the CLI default) in a quarter of the sessions
+    let colocated = rng.chance(1, 4);
+    let init_args: &[&str] = if colocated { &["git", "init", "--colocate", "repo"] } else { &["git", "init", "--no-colocate", "repo"] };
+    if sess.jjs(&root, init_args).rc != 0 {
         return failed_case("init");
     }
+    shapes.push(if colocated { "repo:colocated".into() } else { "repo:not-colocated".into() });
     // ---- set-up: a small history made with `jj new`, one file per commit
     let k = rng.range(3, 6) as usize;
     let mut changes: Vec<String> = vec!["root()".into()];
@@ -569,6 +573,7 @@ fn session(index: usize, mut rng: Rng, scratch: &Path, tier: &str) -> SessionRes
     let mut w = World::default();
     let loader = cmdsess::loader(&ws1);
     let Some(obs) = observe_log(&mut sess, &ws1) else { return failed_case("obs0") };
+    let mut last_obs = obs.clone();
     if absorb(&mut w, &obs).is_none() || w.hex.first().map(|s| s.chars().all(|c| c == '0')) != Some(true) {
         return failed_case("absorb0");
     }
@@ -706,10 +711,17 @@ fn session(index: usize, mut rng: Rng, scratch: &Path, tier: &str) -> SessionRes
         if unknown_preds > 0 {
             shapes.push("note:predecessor-never-visible".into());
         }
-        // observation after
-        let Some(obs) = observe_log(&mut sess, &ws1) else {
-            return failed_case("obs");
+        // observation after; the visible graph and its flags are a function of the head
+        // operation and the configuration, so an unchanged head needs no new `jj log`
+        let obs = if nops == 0 && !matches!(cmd, Cmd::Observe) {
+            last_obs.clone()
+        } else {
+            let Some(obs) = observe_log(&mut sess, &ws1) else {
+                return failed_case("obs");
+            };
+            obs
         };
+        last_obs = obs.clone();
         let vis_before: BTreeSet<usize> = w.vis.iter().copied().collect();
         let Some(delta) = absorb(&mut w, &obs) else { return failed_case("absorb") };
         let Some(v) = read_view(&loader, &heads[0], &w) else { return failed_case("view") };
